@@ -28,8 +28,9 @@ TABLES = {
     (KP + "key_override::Overrides::new", "overrides_by_osc"): (("C13",), "a configured override", 1, 0, ""),
     (KP + "parse_overrides", "overrides"): (("C13",), "a defoverrides entry", 1, 0, ""),
     (KP + "parse_layers", "layers_cfg"): (("C04", "C16"), "a deflayer position", 3, 4,
-                                         "the deflayermap pair loop (any-key entries `_ __ ___` are applied afterwards) and the three loops "
-                                         "that fill positions which are still unmapped"),
+                                         "the deflayermap pair loop and the three loops inside it that apply an any-key entry (`_ __ ___`) in place, "
+                                         "only to positions that are still unmapped (explicit pairs store unconditionally, and `_` / `__` cover "
+                                         "disjoint positions while `___` excludes both, so the order of the pairs does not matter)"),
     (KP + "parse_defsrc", "mkeys"): (("C11",), "a defsrc key", 1, 1, "the process-unmapped-keys loop skips the excepted keys"),
     (KP + "parse_defsrc", "ordered_codes"): (("C11",), "a defsrc key", 1, 0, ""),
     (KP + "parse_deflocalkeys", "localkeys"): (("C11",), "a deflocalkeys pair", 1, 0, ""),
